@@ -674,7 +674,7 @@ func genCustom(r *hx.Rng, d *Desc) {
 			if isUser(a) && r.Chance(2, 3) {
 				w := Writer{Dim: a.Dim, Attr: a.Name, Type: "float", Ptr: r.Bool()}
 				for j := 0; j < a.Dim; j++ {
-					w.Names = append(w.Names, fmt.Sprintf("u%s%d", strings.ToLower(a.Name), j))
+					w.Names = append(w.Names, fmt.Sprintf("u%s%dd%d", strings.ToLower(a.Name), a.Dim, j))
 				}
 				if a.Dim >= 2 && r.Chance(1, 3) {
 					w.Type = "uchar"
